@@ -89,6 +89,20 @@ def gen(args) -> list:
         if c < 0.3:
             nod = rnod()
             lt = LocalTime.from_nanoseconds_since_midnight(nod)
+            if rnd.random() < 0.12:
+                # the same time of day as the result of arithmetic (often landing exactly on midnight): a time of day is what it is
+                # however it was arrived at
+                x = rnd.randrange(1, NPD)
+                if rnd.random() < 0.6:
+                    nod = 0
+                k = (nod - x) % NPD
+                try:
+                    lt = rnd.choice([lambda: LocalTime.from_nanoseconds_since_midnight(x).plus_nanoseconds(k if k else NPD),
+                                     lambda: LocalTime.from_nanoseconds_since_midnight(x).plus_nanoseconds(k + NPD),
+                                     lambda: LocalTime(12, 0).plus_hours(12) if nod == 0 else LocalTime.from_nanoseconds_since_midnight(x).plus_nanoseconds(k),
+                                     lambda: LocalTime(23, 59, 59).plus_seconds(1) if nod == 0 else LocalTime.from_nanoseconds_since_midnight(x).plus_nanoseconds(k)])()
+                except Exception:  # noqa: BLE001
+                    lt = LocalTime.from_nanoseconds_since_midnight(nod)
             long_form = rnd.random() < 0.3
             ev = {"op": "time_long" if long_form else "time", "value": [nod // 10**9, nod % 10**9]}
 
